@@ -18,6 +18,14 @@ CHECKS = {
              "strings per class and in foreign XML spellings, and the independent structural projection must equal TLC's normal form and "
              "re-serialisation must be byte-identical.",
         design="6/C03", technique=CODEC_TECH),
+    "C10": dict(
+        text="Numbers.tla states rendering/denotation/INDI-grammar parsing in exact integer arithmetic; TLC checks Inverse, field ranges, "
+             "RenderOK and ParseBack (all three separators) on the complete resolution grid of %.3m (all of %.3m/%.5m/%.6m in the thorough "
+             "tier) and dense sub-grids of the finer formats, and exports the grammar corpus with exact denotations. Every corpus string goes "
+             "through the real validator and str_to_num for nine formats; real renderings of grid, carry-point, (-1,0) and large values for "
+             "all m formats and 125 printf formats are tokenised and judged by TLC (RenderOK / PrintfOK on exact limbs) together with the "
+             "parse-back value.",
+        design="6/C10", technique="TLA+ spec (Numbers.tla) + TLC exhaustive grid checking; TLC judges tokenised real renderings (NumbersJudge.tla)"),
     "C13": dict(
         text="TLC generates XML infosets with one systematic perturbation of each constrained field / required attribute / child kind / "
              "tag (OnlyConformant checked on the model); each is written as XML and given to the real parser together with seeded random "
